@@ -52,6 +52,17 @@ def circuits(rng, n):
                     p.gate([kk, 0, 0, R - 1, 0, 0], None, a, one, c, "#0")
             out.append(p.src())
             continue
+        if i % 9 == 8:  # public inputs on NON-arithmetic rows (append_custom_gate with .public): zero-selector and range rows
+            from props.c05 import raw
+            a = p.w(0)
+            p.op(raw([0] * 11, 0, [p.ref(a), "#0", "#0", "#0"]))
+            p.boolean(p.w(1))
+            sel11 = [0] * 11; sel11[7] = 1
+            p.op(raw(sel11, 0, ["#0", "#0", "#0", "#0"]))
+            p.op(raw([0] * 11, None, ["#0", "#0", "#0", "#0"]))
+            p.pub(rng.fe())
+            out.append(p.src())
+            continue
         ws = [p.w(rng.fe()) for _ in range(2 + rng.below(4))]          # some stay unused
         if k == 0:      # repeated selector tuples
             for _ in range(3):
@@ -95,7 +106,7 @@ def run(ctx, broken):
     r2 = LineRunner(ctx, "C15")
     srs = srs_draws(rng)
     cs = []
-    for s in progs[: (8 if ctx.tier == "quick" else 40)]:
+    for s in progs[: (9 if ctx.tier == "quick" else 40)]:
         for deg in ([6, 9, 10, 16, 26, 40] if ctx.tier == "quick" else [1, 2, 5, 6, 9, 10, 11, 16, 25, 26, 27, 40, 58, 59, 130]):
             draws = [draw_hex(rng) for _ in range(14)]
             cs.append({"line": prove_line(srs, deg, b"c15", draws, 3, s, routes=True), "tags": ["routes-deg-%d" % deg]})
@@ -172,7 +183,7 @@ def run(ctx, broken):
     st["snapshot_model_disagreements"] = s1["model_disagreements"]
     st["payload_distribution"] = dist
     st["rule"] = ("%d circuits (unused witnesses, repeated / distinct selector tuples, selectors equal to the table entries 0,1,-1, random "
-                  "selectors, zero-valued public inputs, public input on first / last row, widgets): (1) decompress(compress(c)) on the "
+                  "selectors, zero-valued public inputs, public input on first / last row, public inputs on non-arithmetic rows, widgets): (1) decompress(compress(c)) on the "
                   "implementation == the Lean model's first-use relabelling; (2) for SRS degrees from too small to ample both routes "
                   "give byte-identical prover and verifier or both fail, and the proof equals the specification prover's; "
                   "Compiler::max_constraints == model for every degree; (3) re-packed payloads (trailing data, truncation, bit flips "
